@@ -749,6 +749,22 @@ func runC07(r *Run) {
 	r.rule("R12", "a cut at a position taken from elsewhere is bounded on the value that is cut: where a function compares such a position with the length of some sequence ahead of the cut, it is the length of the sequence it cuts (contradiction rule over every function of the module)", func() {
 		sliceBoundOnItsOwnValueRule(r, "*")
 	})
+	r.rule("R15", "methods are compared as sent: methodInt classifies every incoming request, and `get` is not GET (RFC 9110 §9.1: case-sensitive) — nothing in methodInt or the closures it hands to a search folds letter case (EqualFold, ToLower, ToUpper); with folding a request `get /` under a custom RequestMethods list is dispatched to the GET handler instead of being answered 501 (E1: who may call a fold)", func() {
+		f := r.Fn("", "(*App).methodInt")
+		bad := ""
+		n := 0
+		for _, g := range append([]*ssa.Function{f}, anonFuncsDeep(f)...) {
+			for _, c := range callsIn(g, false) {
+				n++
+				if strings.Contains(c.Name, "EqualFold") || strings.Contains(c.Name, "ToLower") || strings.Contains(c.Name, "ToUpper") {
+					bad = c.Name + " at " + r.pos(c.Instr)
+				}
+			}
+		}
+		r.check(bad == "", "methodInt:no-case-folding", r.fpos(f), fmt.Sprintf("no letter-case folding among the %d calls of methodInt", n),
+			"methodInt folds letter case ("+bad+"): a method that differs from a configured one only in case (`get`, `pOsT`, `purge`) is classified as that method and its handler runs — the property asks for 501 Not Implemented for methods the app does not know")
+	})
+
 	r.rule("R14", "a position found in a tail of a text is a position in that tail: wherever the result of strings/bytes Index… over s[low:] (merged with other positions, shifted by constants or lengths) is used to index or cut s itself, low has been added back — otherwise a scan over the occurrences can step backwards and never end (every function of the module; the never-hangs clause for the header-value scanners, E4)", func() {
 		positionInSuffixIsRebasedRule(r, "*")
 	})
